@@ -32,6 +32,19 @@ class Ctx:
         self.externs = []             # [(ident, kind)] in order of first use; kind: 'bool' | 'N' | ('fun', nargs, rettype)
         self.extern_types = extern_types or {}
         self.fresh = 0
+        self.eff = False          # effect mode: result is (rv, list of (attribute, value) writes, newest first)
+        self.prefix = False       # prefix mode: the first untranslatable top-level statement becomes the parameter `rest`
+        self.osattrs = {}         # OSAttribute locals constructed from a boolean literal: name -> '1' | '0'
+        self.depth = 0
+
+    def thunk(self, body):
+        return '(fun acc : list (N * N) => %s)' % body if self.eff else '(fun _ : unit => %s)' % body
+
+    def callk(self, k):
+        return '(%s acc)' % k if self.eff else '(%s tt)' % k
+
+    def ret(self, v):
+        return '(%s, acc)' % v if self.eff else v
 
     def extern(self, ident, kind):
         for (i, k) in self.externs:
@@ -103,6 +116,15 @@ def tr_e(c, e):
         if e[1] in BOOL_TYPES and ty == 'N':
             return ('(negb (%s =? 0))' % t, 'bool')
         return (t, ty)
+    if k == 'un' and e[1] == '*':
+        inner = e[2]
+        while inner[0] == 'cast':
+            inner = inner[2]
+        if inner[0] == 'var':
+            nm = 'deref_' + ident(inner[1])
+            c.extern(nm, 'N')
+            return (nm, 'N')
+        raise Unsupported('dereference')
     if k == 'un':
         op = e[1]
         if op == '!':
@@ -174,7 +196,7 @@ def always_exits(ss):
     return False
 
 
-def tr_s(c, ss, k_fall, k_break):
+def tr_s_inner(c, ss, k_fall, k_break):
     """term for executing ss; k_fall: term when control falls off the end; k_break: on `break`"""
     if not ss:
         if k_fall is None:
@@ -185,13 +207,35 @@ def tr_s(c, ss, k_fall, k_break):
     if k == 'ret':
         if s[1] is None:
             raise Unsupported('void return')
-        return as_bool(c, s[1]) if c.ret_bool else as_N(c, s[1])
+        return c.ret(as_bool(c, s[1]) if c.ret_bool else as_N(c, s[1]))
     if k == 'break':
         if k_break is None:
             raise Unsupported('break outside switch')
         return k_break
     if k == 'block':
         return tr_s(c, list(s[1]) + list(rest), k_fall, k_break)
+    if k == 'decl' and c.eff and s[2] in ('OSAttribute', 'const OSAttribute') and s[3] is not None and s[3][0] == 'ctor' and len(s[3][2]) == 1 and s[3][2][0][0] == 'bool':
+        c.osattrs[s[1]] = '1' if s[3][2][0][1] else '0'
+        return tr_s(c, rest, k_fall, k_break)
+    if k == 'expr' and c.eff:
+        e = s[1]
+        eff = None
+        if e[0] == 'call' and e[1][0] == 'field' and e[1][2].split('::')[-1] == 'setAttribute' and len(e[2]) == 2:
+            a = as_N(c, e[2][0])
+            v = e[2][1]
+            while v[0] in ('ctor', 'cast') and len(v[2] if v[0] == 'ctor' else [v[2]]) == 1:
+                v = v[2][0] if v[0] == 'ctor' else v[2]
+            if v[0] == 'var' and v[1] in c.osattrs:
+                eff = '(%s, %s)' % (a, c.osattrs[v[1]])
+            elif v[0] == 'bool':
+                eff = '(%s, %s)' % (a, '1' if v[1] else '0')
+            else:
+                eff = '(%s, %s)' % (a, as_N(c, v))
+        elif e[0] == 'bin' and e[1] == '=' and e[2][0] == 'un' and e[2][1] == '*' and e[2][2][0] == 'var':
+            # *pulValueLen = X : an effect on caller memory, tagged with the attribute number 2^64-2
+            eff = '(18446744073709551614, %s)' % as_N(c, e[3])
+        if eff is not None:
+            return '(let acc := %s :: acc in %s)' % (eff, tr_s(c, rest, k_fall, k_break))
     if k == 'expr':
         e = s[1]
         if is_log(e):
@@ -217,7 +261,10 @@ def tr_s(c, ss, k_fall, k_break):
         cond = as_bool(c, s[1])
         t_exit, e_exit = always_exits(s[2]), always_exits(s[3])
         if t_exit and e_exit:
-            return '(if %s then %s else %s)' % (cond, tr_s(c, s[2], None, k_break), tr_s(c, s[3], None, k_break))
+            c.depth += 1
+            r = '(if %s then %s else %s)' % (cond, tr_s(c, s[2], None, k_break), tr_s(c, s[3], None, k_break))
+            c.depth -= 1
+            return r
         assigned = assigned_vars(s[2]) | assigned_vars(s[3])
         if assigned:
             raise Unsupported('assignment inside a branch that falls through')
@@ -227,11 +274,13 @@ def tr_s(c, ss, k_fall, k_break):
         kn = 'k%d' % c.fresh
         types_after = dict(c.types)
         c.types = dict(saved)
-        a = tr_s(c, s[2], '(%s tt)' % kn, k_break)
+        c.depth += 1
+        a = tr_s(c, s[2], c.callk(kn), k_break)
         c.types = dict(saved)
-        b = tr_s(c, s[3], '(%s tt)' % kn, k_break)
+        b = tr_s(c, s[3], c.callk(kn), k_break)
+        c.depth -= 1
         c.types = types_after
-        return '(let %s := (fun _ : unit => %s) in if %s then %s else %s)' % (kn, krest, cond, a, b)
+        return '(let %s := %s in if %s then %s else %s)' % (kn, c.thunk(krest), cond, a, b)
     if k == 'switch':
         v = as_N(c, s[1])
         body = s[2]
@@ -264,9 +313,12 @@ def tr_s(c, ss, k_fall, k_break):
         def seg(start):
             code = [x for x in body[start:] if x[0] not in ('case', 'default')]
             c.types = dict(saved)
-            return tr_s(c, code, '(%s tt)' % kn, '(%s tt)' % kn)
+            c.depth += 1
+            r = tr_s(c, code, c.callk(kn), c.callk(kn))
+            c.depth -= 1
+            return r
         term = None
-        dflt_term = '(%s tt)' % kn
+        dflt_term = c.callk(kn)
         for (labels, start, isd) in groups:
             if isd:
                 dflt_term = seg(start)
@@ -277,8 +329,37 @@ def tr_s(c, ss, k_fall, k_break):
             test = ' || '.join('(%s =? %d)' % (vn, l) for l in labels)
             term = '(if %s then %s else %s)' % (test, seg(start), term)
         c.types = dict(saved)
-        return '(let %s := (fun _ : unit => %s) in let %s := %s in %s)' % (kn, krest, vn, v, term)
+        return '(let %s := %s in let %s := %s in %s)' % (kn, c.thunk(krest), vn, v, term)
     raise Unsupported('statement ' + str(k))
+
+
+def tr_s(c, ss, k_fall, k_break):
+    """translate a statement list; in prefix mode the first untranslatable statement of the TOP-LEVEL
+    sequence (and everything after it) becomes the result parameter `rest`"""
+    if c.prefix and c.depth == 0 and ss:
+        saved_types, saved_ext, saved_fresh = dict(c.types), list(c.externs), c.fresh
+        try:
+            return tr_s_inner(c, ss, k_fall, k_break)
+        except Unsupported as e:
+            c.types, c.externs, c.fresh = saved_types, saved_ext, saved_fresh
+            # translate only the head statement to see whether it is the culprit
+            try:
+                c.prefix = False
+                c.depth += 1
+                tr_s_inner(c, [ss[0]], 'DUMMY', k_break)
+                head_ok = True
+            except Unsupported:
+                head_ok = False
+            finally:
+                c.depth -= 1
+                c.prefix = True
+                c.types, c.externs, c.fresh = dict(saved_types), list(saved_ext), saved_fresh
+            if not head_ok:
+                c.stopped_at = repr(ss[0])[:100]
+                c.extern('zz_rest', 'R')
+                return 'zz_rest'
+            raise
+    return tr_s_inner(c, ss, k_fall, k_break)
 
 
 def assigned_vars(ss):
@@ -295,9 +376,10 @@ def assigned_vars(ss):
     return out
 
 
-def translate(name, params, ptypes, ret_type, body, consts, extern_types=None, drop_params=()):
+def translate(name, params, ptypes, ret_type, body, consts, extern_types=None, drop_params=(), eff=False, prefix=False):
     """-> Coq source of `Definition gen_<name> ...`.  params/ptypes from the C++ declaration."""
     c = Ctx(name, consts, ret_type in BOOL_TYPES, extern_types)
+    c.eff, c.prefix = eff, prefix
     plist = []
     for p, t in zip(params, ptypes):
         if p in drop_params or p == '_' or not p:
@@ -315,4 +397,8 @@ def translate(name, params, ptypes, ret_type, body, consts, extern_types=None, d
             sig.append('(%s : %s)' % (i, kd))
     sig += ['(%s : %s)' % p for p in plist]
     rt = 'bool' if c.ret_bool else 'N'
+    if c.eff:
+        rt = '(%s * list (N * N))' % rt
+        term = '(let acc : list (N * N) := nil in %s)' % term
+    sig = [x.replace(': R)', ': %s)' % rt) for x in sig]
     return 'Definition gen_%s %s : %s :=\n  %s.\n' % (ident(name), ' '.join(sig), rt, term), [i for (i, _) in c.externs] + [p for (p, _) in plist]
